@@ -266,6 +266,10 @@ class SimpleTypeChecker(walkers.DagWalker):
         #pylint: disable=unused-argument
         assert formula is not None
         assert len(args) == 1
+        for v in formula.quantifier_vars():
+            # Only variables can be bound
+            if not v.is_symbol():
+                return None
         if args[0] == BOOL:
             return BOOL
         return None
